@@ -32,6 +32,8 @@ def run(ctx: Ctx) -> None:
         items.append({"id": f"mdisp{base + k}", "kind": "match", "seed": 150000 + base + k, "steps": 25, "focus": "dispatch", "weight": 3})
     for k in range(ctx.pick(20, 200)):
         items.append({"id": f"mfleet{base + k}", "kind": "match", "seed": 170000 + base + k, "steps": 25, "focus": "fleet", "weight": 3})
+    for k in range(ctx.pick(2, 12)):
+        items.append({"id": f"mflood{base + k}", "kind": "match", "seed": 190000 + base + k, "steps": 2, "focus": "flood", "weight": 6})
     files = core.produce(ctx, items)
     cfgp = ctx.work / "HiveMatchTrace.cfg"
     cfgp.write_text("SPECIFICATION TraceSpec\nCONSTANTS\n  MaxN = 1\n  MaxC = 1\nPOSTCONDITION Done\nCHECK_DEADLOCK FALSE\n")
